@@ -2,12 +2,15 @@
 mod verif_kani {
     use super::*;
 
+    /// A conditioner at an arbitrary point of a connection's life: any number of messages (< 2^32) already went through.
     fn conditioner() -> LinkConditioner {
-        LinkConditioner {
+        let c = LinkConditioner {
             rng: Rng::with_seed(1),
             heap: BinaryHeap::new(),
-            sequence: 0,
-        }
+            sequence: kani::any(),
+        };
+        kani::assume((c.sequence as u128) < (1u128 << 32)); // requires: fewer than 2^32 messages so far
+        c
     }
 
     fn base() -> Instant {
